@@ -769,9 +769,20 @@ def m_compare_digest(it, args, kw):
     return seq_eq(a, b)
 
 
+def m_int_from_bytes(it, args, kw):
+    data = args[0]
+    byteorder = args[1] if len(args) > 1 else kw.get("byteorder", "big")
+    if not isinstance(data, SBytes):
+        return int.from_bytes(data, byteorder, signed=kw.get("signed", False))
+    if kw.get("signed", False) or byteorder not in ("big", "little") or data.is_str:
+        raise Unsupported("int.from_bytes(signed / other byte order / str)")
+    return os2ip(data.items if byteorder == "big" else list(reversed(data.items)))
+
+
 import hmac as _hmac
 import re as _re
 MODELS = {
+    int.from_bytes: m_int_from_bytes,
     base64.b64decode: m_b64decode_any,
     base64.urlsafe_b64decode: m_urlsafe_b64decode,
     _re.Pattern.match: m_pattern_match,
